@@ -175,7 +175,7 @@ func run(c *vf.Ctx) {
 		"(b) cipher x MAC interaction per direction: all pairs of cipher lists of length <=2 [thorough <=3] over {aes128-gcm, chacha20-poly1305, aes128-ctr, unknown} x all pairs of MAC lists of length <=2 over {hmac-sha2-256, hmac-sha1, unknown}, with 4 settings of the opposite direction; " +
 		"(c) every cipher name the package knows, with disjoint MAC lists; (d) two fields failing at once, languages and first_kex_packet_follows varied (must not matter); " +
 		"(e) both directions of the cipher / MAC / compression pair varied at once and independently on both sides: all quadruples of lists of length <=2 over {known1, known2, unknown} (13^4 per pair); " +
-		"(f) long lists: n client x m server names, n,m in {1,2,15..17,31..33,63..65,127..129,255..257,1000} (thorough + 511..513, 4095..4097, 65535..65537), the only common name at every combination of first/middle/last position (plus none, plus a later second common name), full n x m square for kex and host key, diagonal and short lists for the other fields; " +
+		"(f) long lists: n client x m server names, n,m in {1,2,15..17,31..33,63..65,127..129,255..257,1000} (thorough + 511..513, 4095..4097, and 65535..65537 against lists of up to 17 names), the only common name at every combination of first/middle/last position (plus none, plus a later second common name), full n x m square for kex and host key, diagonal and short lists for the other fields; " +
 		"(g) near-miss names (prefix, extension, other case, surrounding blank, empty name, trailing comma, 64/65-byte names) for every field and near misses of the three AEAD cipher names (must need a MAC); " +
 		"(e)-(g) also demand that the name-lists passed in (incl. spare capacity) are unchanged afterwards. " +
 		"Each pair is evaluated as client and as server: both fail or both agree (client.Write==server.Read, client.Read==server.Write) and equal the RFC 4253 7.1 model. non-trivial = distinct (field, client list, server list) whose model outcome is success with client and server orders differing, or failure")
